@@ -28,7 +28,7 @@ LEVEL_TEXT = (
     "All concrete DPT classes over every payload they accept: complete for payloads of <= 2 octets (6-bit values, 256 and 65,536 arrays; in the quick "
     "tier the 65,536 arrays are complete for one class per behaviour signature - same code, same range/resolution parameters - and a 1/7 stride for its "
     "siblings, thorough: complete for every class); for 3..14-octet types every octet value in every position over zero / 0xFF / accepted backgrounds "
-    "plus 3,000 (20,000) random arrays. Longer payloads are sampled, hence exploration."
+    "plus 3,000 (100,000) random arrays. Longer payloads are sampled, hence exploration."
 )
 LEVEL_NOTE = (
     "Trusted: CPython float/struct. Judged: to_knx(from_knx(p)) does not raise, has the declared payload type/length, and decodes to an equal value "
@@ -153,7 +153,7 @@ def _payload_space(ctx, cls, exhaustive_two_octet):
             for i in range(start, size, 7):
                 yield G.mk(cls, i)
     else:
-        yield from G.own_payloads(cls, ctx.rng, ctx.scale(3000, 20000))
+        yield from G.own_payloads(cls, ctx.rng, ctx.scale(3000, 100000))
     # a few foreign payloads: must simply not be accepted
     yield DPTArray(())
     yield DPTBinary(0x3F)
